@@ -2,7 +2,7 @@
    Pinned statements only.  Model: Model/Manip.v (m_clone = clone_node), Model/Hist.v (clone_with_prefixes). *)
 From Coq Require Import List NArith ZArith.
 From XotV Require Import Model.Base Model.Zipper Model.Access Model.Store Model.Manip Model.Fullname Model.Scope Model.NsTools Model.Hist
-                         Proofs.ManipProofs.
+                         Proofs.ManipProofs Proofs.InvSteps Proofs.CloneFrame.
 Import ListNotations.
 Open Scope N_scope.
 
@@ -62,3 +62,13 @@ Proof.
 Qed.
 Print Assumptions C12_clone_with_prefixes_effect.
 
+
+(* "The source is unchanged by the cloning": whatever node is cloned, in every good store (C04: every reachable one), clone_node
+   leaves the forest that was there exactly as it was and where it was — the old forest is a suffix of the new one; what is in
+   front of it is made of nodes that were not there (creation never reuses a live handle, C04_new_handle_fresh).  In particular
+   no node of the source tree, nor of any other tree, is touched by the replay of the edges, by the text merges it makes or by
+   the removal of the temporary top element. *)
+Theorem C12_clone_leaves_every_tree_alone :
+  forall st n, Good st -> exists F, store (fst (m_clone st n)) = fapp F (store st).
+Proof. exact clone_frame. Qed.
+Print Assumptions C12_clone_leaves_every_tree_alone.
